@@ -1,2 +1,489 @@
-def selftest():
+"""Independent readers for the raster / text formats segno writes (scratch)."""
+import re
+import struct
+import zlib
+
+
+class FormatError(Exception):
     pass
+
+
+# ---------------------------------------------------------------- PNG
+def read_png(data):
+    """Returns (width, height, pixels) with pixels[y][x] = (r, g, b, a); info dict."""
+    if data[:8] != b'\x89PNG\r\n\x1a\n':
+        raise FormatError('bad PNG signature')
+    pos = 8
+    chunks = []
+    while pos < len(data):
+        if pos + 8 > len(data):
+            raise FormatError('truncated chunk header')
+        ln, typ = struct.unpack('>I4s', data[pos:pos + 8])
+        body = data[pos + 8:pos + 8 + ln]
+        if len(body) != ln or pos + 12 + ln > len(data):
+            raise FormatError('truncated chunk %r' % typ)
+        crc, = struct.unpack('>I', data[pos + 8 + ln:pos + 12 + ln])
+        if zlib.crc32(typ + body) & 0xffffffff != crc:
+            raise FormatError('bad CRC in %r' % typ)
+        chunks.append((typ, body))
+        pos += 12 + ln
+    if not chunks or chunks[0][0] != b'IHDR' or chunks[-1][0] != b'IEND' or chunks[-1][1]:
+        raise FormatError('IHDR/IEND misplaced')
+    if [t for t, b in chunks].count(b'IEND') != 1:
+        raise FormatError('several IEND')
+    if len(chunks[0][1]) != 13:
+        raise FormatError('IHDR length')
+    w, h, depth, ctype, comp, flt, inter = struct.unpack('>2I5B', chunks[0][1])
+    if comp or flt or inter:
+        raise FormatError('unsupported compression/filter/interlace')
+    if w == 0 or h == 0:
+        raise FormatError('zero dimension')
+    allowed = {0: (1, 2, 4, 8, 16), 2: (8, 16), 3: (1, 2, 4, 8), 4: (8, 16), 6: (8, 16)}
+    if ctype not in allowed or depth not in allowed[ctype]:
+        raise FormatError('bad colour type / depth %r/%r' % (ctype, depth))
+    plte = None
+    trns = None
+    phys = None
+    idat = b''
+    seen_idat = False
+    idat_done = False
+    for typ, body in chunks[1:-1]:
+        if typ == b'IDAT':
+            if idat_done:
+                raise FormatError('IDAT chunks not consecutive')
+            seen_idat = True
+            idat += body
+            continue
+        if seen_idat:
+            idat_done = True
+        if typ == b'PLTE':
+            if seen_idat or plte is not None or len(body) % 3 or not 3 <= len(body) <= 768:
+                raise FormatError('bad PLTE')
+            plte = [tuple(body[i:i + 3]) for i in range(0, len(body), 3)]
+        elif typ == b'tRNS':
+            if seen_idat or trns is not None:
+                raise FormatError('bad tRNS position')
+            if ctype == 3 and plte is None:
+                raise FormatError('tRNS before PLTE')
+            trns = body
+        elif typ == b'pHYs':
+            if seen_idat or len(body) != 9:
+                raise FormatError('bad pHYs')
+            phys = struct.unpack('>IIB', body)
+        elif not (typ[0] & 0x20):
+            raise FormatError('unknown critical chunk %r' % typ)
+    if ctype == 3:
+        if plte is None:
+            raise FormatError('missing PLTE')
+        if len(plte) > (1 << depth):
+            raise FormatError('palette larger than bit depth allows')
+        if trns is not None and len(trns) > len(plte):
+            raise FormatError('tRNS longer than palette')
+    elif ctype in (0, 4) and plte is not None:
+        raise FormatError('PLTE in greyscale image')
+    if ctype in (4, 6) and trns is not None:
+        raise FormatError('tRNS with alpha colour type')
+    if ctype == 0 and trns is not None and len(trns) != 2:
+        raise FormatError('tRNS length for greyscale')
+    if ctype == 2 and trns is not None and len(trns) != 6:
+        raise FormatError('tRNS length for RGB')
+    try:
+        raw = zlib.decompress(idat)
+    except zlib.error as ex:
+        raise FormatError('IDAT: %s' % ex)
+    channels = {0: 1, 2: 3, 3: 1, 4: 2, 6: 4}[ctype]
+    bpp_bits = channels * depth
+    stride = (w * bpp_bits + 7) // 8
+    if len(raw) != (stride + 1) * h:
+        raise FormatError('IDAT size %d != %d' % (len(raw), (stride + 1) * h))
+    bpp = max(1, bpp_bits // 8)
+    prev = bytearray(stride)
+    rows = []
+    p = 0
+    for y in range(h):
+        ft = raw[p]
+        line = bytearray(raw[p + 1:p + 1 + stride])
+        p += stride + 1
+        if ft == 0:
+            pass
+        elif ft == 1:
+            for i in range(bpp, stride):
+                line[i] = (line[i] + line[i - bpp]) & 0xff
+        elif ft == 2:
+            for i in range(stride):
+                line[i] = (line[i] + prev[i]) & 0xff
+        elif ft == 3:
+            for i in range(stride):
+                a = line[i - bpp] if i >= bpp else 0
+                line[i] = (line[i] + ((a + prev[i]) >> 1)) & 0xff
+        elif ft == 4:
+            for i in range(stride):
+                a = line[i - bpp] if i >= bpp else 0
+                b = prev[i]
+                c = prev[i - bpp] if i >= bpp else 0
+                pa, pb, pc = abs(b - c), abs(a - c), abs(a + b - 2 * c)
+                pr = a if pa <= pb and pa <= pc else (b if pb <= pc else c)
+                line[i] = (line[i] + pr) & 0xff
+        else:
+            raise FormatError('bad filter type %d' % ft)
+        rows.append(line)
+        prev = line
+    maxv = (1 << depth) - 1
+    pixels = []
+    trns_grey = struct.unpack('>H', trns)[0] if (ctype == 0 and trns is not None) else None
+    trns_rgb = struct.unpack('>3H', trns) if (ctype == 2 and trns is not None) else None
+    for line in rows:
+        samples = []
+        if depth == 8:
+            samples = list(line)
+        elif depth == 16:
+            samples = [(line[i] << 8) | line[i + 1] for i in range(0, len(line), 2)]
+        else:
+            per = 8 // depth
+            for byte in line:
+                for k in range(per):
+                    samples.append((byte >> (8 - depth * (k + 1))) & maxv)
+            # padding bits of the last byte
+            samples = samples[:w * channels]
+        row = []
+        for x in range(w):
+            s = samples[x * channels:(x + 1) * channels]
+            if ctype == 0:
+                g = s[0]
+                a = 0 if (trns_grey is not None and g == trns_grey) else 255
+                g8 = g * 255 // maxv
+                row.append((g8, g8, g8, a))
+            elif ctype == 3:
+                if s[0] >= len(plte):
+                    raise FormatError('palette index %d out of range' % s[0])
+                a = trns[s[0]] if (trns is not None and s[0] < len(trns)) else 255
+                row.append(plte[s[0]] + (a,))
+            elif ctype == 2:
+                a = 0 if (trns_rgb is not None and tuple(s) == trns_rgb) else 255
+                row.append(tuple(v * 255 // maxv for v in s) + (a,))
+            elif ctype == 4:
+                g8 = s[0] * 255 // maxv
+                row.append((g8, g8, g8, s[1] * 255 // maxv))
+            else:
+                row.append(tuple(v * 255 // maxv for v in s))
+        pixels.append(row)
+    return w, h, pixels, dict(depth=depth, ctype=ctype, plte=plte, trns=trns, phys=phys)
+
+
+# ---------------------------------------------------------------- Netpbm
+def _pnm_tokens(data, n, pos):
+    """Reads n whitespace separated tokens honouring # comments; returns tokens and the
+    position of the single whitespace char following the last token."""
+    toks = []
+    while len(toks) < n:
+        while pos < len(data) and data[pos:pos + 1].isspace():
+            pos += 1
+        if pos >= len(data):
+            raise FormatError('truncated header')
+        if data[pos:pos + 1] == b'#':
+            while pos < len(data) and data[pos:pos + 1] != b'\n':
+                pos += 1
+            continue
+        start = pos
+        while pos < len(data) and not data[pos:pos + 1].isspace() and data[pos:pos + 1] != b'#':
+            pos += 1
+        toks.append(data[start:pos])
+    return toks, pos
+
+
+def read_pbm(data):
+    """Returns (w, h, rows) rows[y][x] in {0,1} (1 = black)."""
+    magic = data[:2]
+    if magic not in (b'P1', b'P4'):
+        raise FormatError('bad PBM magic')
+    toks, pos = _pnm_tokens(data, 2, 2)
+    try:
+        w, h = int(toks[0]), int(toks[1])
+    except ValueError:
+        raise FormatError('bad PBM dimension')
+    if magic == b'P4':
+        if not data[pos:pos + 1].isspace():
+            raise FormatError('missing whitespace after header')
+        body = data[pos + 1:]
+        stride = (w + 7) // 8
+        if len(body) != stride * h:
+            raise FormatError('P4 raster size %d != %d' % (len(body), stride * h))
+        rows = []
+        for y in range(h):
+            line = body[y * stride:(y + 1) * stride]
+            rows.append([(line[x >> 3] >> (7 - (x & 7))) & 1 for x in range(w)])
+        return w, h, rows
+    body = data[pos:]
+    body = re.sub(rb'#[^\n]*', b'', body)
+    bits = [c - 48 for c in body if not bytes((c,)).isspace()]
+    if any(b not in (0, 1) for b in bits):
+        raise FormatError('P1 raster contains non-bits')
+    if len(bits) != w * h:
+        raise FormatError('P1 raster size %d != %d' % (len(bits), w * h))
+    if any(len(ln) > 70 for ln in data.split(b'\n')):
+        pass  # the 70-character recommendation is not enforced
+    return w, h, [bits[y * w:(y + 1) * w] for y in range(h)]
+
+
+def read_ppm(data):
+    if data[:2] != b'P6':
+        raise FormatError('bad PPM magic')
+    toks, pos = _pnm_tokens(data, 3, 2)
+    w, h, maxval = (int(t) for t in toks)
+    if not 0 < maxval < 65536:
+        raise FormatError('bad maxval')
+    if not data[pos:pos + 1].isspace():
+        raise FormatError('missing whitespace after header')
+    body = data[pos + 1:]
+    bps = 1 if maxval < 256 else 2
+    if len(body) != w * h * 3 * bps:
+        raise FormatError('PPM raster size %d != %d' % (len(body), w * h * 3 * bps))
+    rows = []
+    for y in range(h):
+        row = []
+        for x in range(w):
+            o = (y * w + x) * 3 * bps
+            px = tuple(int.from_bytes(body[o + i * bps:o + (i + 1) * bps], 'big') for i in range(3))
+            if any(v > maxval for v in px):
+                raise FormatError('sample above maxval')
+            row.append(px)
+        rows.append(row)
+    return w, h, maxval, rows
+
+
+def read_pam(data):
+    if not data.startswith(b'P7\n'):
+        raise FormatError('bad PAM magic')
+    end = data.find(b'ENDHDR\n')
+    if end < 0:
+        raise FormatError('no ENDHDR')
+    hdr = {}
+    for ln in data[3:end].split(b'\n'):
+        ln = ln.strip()
+        if not ln or ln.startswith(b'#'):
+            continue
+        k, _, v = ln.partition(b' ')
+        if k == b'TUPLTYPE' and k in hdr:
+            hdr[k] += b' ' + v.strip()
+        else:
+            if k in hdr:
+                raise FormatError('duplicate header %r' % k)
+            hdr[k] = v.strip()
+    try:
+        w, h, depth, maxval = (int(hdr[k]) for k in (b'WIDTH', b'HEIGHT', b'DEPTH', b'MAXVAL'))
+    except (KeyError, ValueError):
+        raise FormatError('incomplete PAM header')
+    tt = hdr.get(b'TUPLTYPE', b'').decode('ascii')
+    need = {'BLACKANDWHITE': 1, 'GRAYSCALE': 1, 'RGB': 3, 'BLACKANDWHITE_ALPHA': 2,
+            'GRAYSCALE_ALPHA': 2, 'RGB_ALPHA': 4}
+    if tt not in need or need[tt] != depth:
+        raise FormatError('TUPLTYPE %r does not match DEPTH %d' % (tt, depth))
+    if not 0 < maxval < 65536:
+        raise FormatError('bad MAXVAL')
+    if tt.startswith('BLACKANDWHITE') and maxval != 1:
+        raise FormatError('BLACKANDWHITE requires MAXVAL 1')
+    body = data[end + 7:]
+    bps = 1 if maxval < 256 else 2
+    if len(body) != w * h * depth * bps:
+        raise FormatError('PAM raster size %d != %d' % (len(body), w * h * depth * bps))
+    rows = []
+    for y in range(h):
+        row = []
+        for x in range(w):
+            o = (y * w + x) * depth * bps
+            t = tuple(int.from_bytes(body[o + i * bps:o + (i + 1) * bps], 'big') for i in range(depth))
+            if any(v > maxval for v in t):
+                raise FormatError('sample above MAXVAL')
+            row.append(t)
+        rows.append(row)
+    return w, h, depth, maxval, tt, rows
+
+
+def pam_rgba(tt, maxval, t):
+    """Normalises a PAM tuple to 8-bit (r,g,b,a)."""
+    def sc(v):
+        return v * 255 // maxval if maxval != 255 else v
+    if tt in ('BLACKANDWHITE', 'GRAYSCALE'):
+        return (sc(t[0]),) * 3 + (255,)
+    if tt in ('BLACKANDWHITE_ALPHA', 'GRAYSCALE_ALPHA'):
+        return (sc(t[0]),) * 3 + (sc(t[1]),)
+    if tt == 'RGB':
+        return tuple(sc(v) for v in t) + (255,)
+    return tuple(sc(v) for v in t)
+
+
+# ---------------------------------------------------------------- XBM / XPM
+def read_xbm(text):
+    m = re.match(r'#define (\w+)_width (\d+)\n#define (\w+)_height (\d+)\n'
+                 r'static (?:unsigned )?char (\w+)_bits\[\] = \{\n(.*)\};\n\Z', text, re.S)
+    if not m:
+        raise FormatError('XBM structure')
+    if not (m.group(1) == m.group(3) == m.group(5)):
+        raise FormatError('XBM names differ')
+    w, h = int(m.group(2)), int(m.group(4))
+    toks = [t.strip() for t in m.group(6).replace('\n', ' ').split(',')]
+    if toks and toks[-1] == '':
+        toks.pop()
+    try:
+        vals = [int(t, 16) for t in toks]
+    except ValueError:
+        raise FormatError('XBM byte literal')
+    if any(not re.fullmatch(r'0x[0-9a-fA-F]{2}', t) for t in toks):
+        raise FormatError('XBM byte literal')
+    stride = (w + 7) // 8
+    if len(vals) != stride * h:
+        raise FormatError('XBM has %d bytes, expected %d' % (len(vals), stride * h))
+    rows = []
+    for y in range(h):
+        line = vals[y * stride:(y + 1) * stride]
+        rows.append([(line[x >> 3] >> (x & 7)) & 1 for x in range(w)])
+    return m.group(1), w, h, rows
+
+
+def read_xpm(text):
+    m = re.match(r'/\* XPM \*/\nstatic char \*\s*(\w+)\[\] = \{\n(.*)\};\n\Z', text, re.S)
+    if not m:
+        raise FormatError('XPM structure')
+    body = m.group(2)
+    lines = body.split('\n')
+    if lines[-1] != '':
+        raise FormatError('XPM last line')
+    lines = lines[:-1]
+    strs = []
+    for i, ln in enumerate(lines):
+        last = i == len(lines) - 1
+        mm = re.fullmatch(r'"([^"]*)"(,?)', ln)
+        if not mm:
+            raise FormatError('XPM string line %d' % i)
+        if (mm.group(2) == ',') == last:
+            raise FormatError('XPM comma placement line %d' % i)
+        strs.append(mm.group(1))
+    try:
+        w, h, ncol, cpp = (int(t) for t in strs[0].split())
+    except ValueError:
+        raise FormatError('XPM values')
+    if cpp != 1:
+        raise FormatError('XPM cpp != 1 unsupported')
+    colors = {}
+    for s in strs[1:1 + ncol]:
+        mm = re.fullmatch(r'(.)\s+c\s+(\S+)', s)
+        if not mm:
+            raise FormatError('XPM colour line %r' % s)
+        colors[mm.group(1)] = mm.group(2)
+    if len(colors) != ncol:
+        raise FormatError('XPM duplicate colour keys')
+    px = strs[1 + ncol:]
+    if len(px) != h or any(len(r) != w for r in px):
+        raise FormatError('XPM pixel dimensions')
+    rows = []
+    for r in px:
+        for ch in r:
+            if ch not in colors:
+                raise FormatError('XPM undefined pixel char')
+        rows.append([colors[ch] for ch in r])
+    return m.group(1), w, h, rows
+
+
+# ---------------------------------------------------------------- text
+def read_txt(text, dark='1', light='0'):
+    if not text.endswith('\n'):
+        raise FormatError('TXT missing final newline')
+    lines = text[:-1].split('\n')
+    rows = []
+    for ln in lines:
+        row = []
+        i = 0
+        while i < len(ln):
+            if dark and ln.startswith(dark, i) and not (light and len(light) > len(dark) and ln.startswith(light, i)):
+                row.append(1)
+                i += len(dark)
+            elif light and ln.startswith(light, i):
+                row.append(0)
+                i += len(light)
+            else:
+                raise FormatError('TXT unexpected char')
+        rows.append(row)
+    return rows
+
+
+_ANSI = re.compile(r'\x1b\[(7|49)m((?:  )+)\x1b\[0m')
+
+
+def read_ansi(text):
+    if not text.endswith('\n'):
+        raise FormatError('ANSI missing newline')
+    rows = []
+    for ln in text[:-1].split('\n'):
+        pos = 0
+        row = []
+        while pos < len(ln):
+            m = _ANSI.match(ln, pos)
+            if not m:
+                raise FormatError('ANSI unexpected sequence at %d' % pos)
+            # "7" = reverse video = light cell on a dark terminal; segno maps bit 0 -> 7, 1 -> 49
+            row += [0 if m.group(1) == '7' else 1] * (len(m.group(2)) // 2)
+            pos = m.end()
+        rows.append(row)
+    return rows
+
+
+def read_compact(text):
+    if not text.endswith('\n'):
+        raise FormatError('compact missing newline')
+    rows = []
+    for ln in text[:-1].split('\n'):
+        top, bot = [], []
+        for ch in ln:
+            try:
+                t, b = {' ': (1, 1), '▀': (0, 1), '▄': (1, 0), '█': (0, 0)}[ch]
+            except KeyError:
+                raise FormatError('compact unexpected char %r' % ch)
+            top.append(t)
+            bot.append(b)
+        rows.append(top)
+        rows.append(bot)
+    return rows
+
+
+# ---------------------------------------------------------------- self test on hand-written files
+def selftest():
+    import struct as _s
+
+    def chunk(t, b):
+        return _s.pack('>I', len(b)) + t + b + _s.pack('>I', zlib.crc32(t + b) & 0xffffffff)
+    # 3x2 greyscale, depth 1, rows 101 / 010 with filter 0 and filter 2 (up)
+    raw = b'\x00' + bytes([0b10100000]) + b'\x02' + bytes([(0b01000000 - 0b10100000) & 0xff])
+    png = b'\x89PNG\r\n\x1a\n' + chunk(b'IHDR', _s.pack('>2I5B', 3, 2, 1, 0, 0, 0, 0)) + chunk(b'IDAT', zlib.compress(raw)) + chunk(b'IEND', b'')
+    w, h, px, info = read_png(png)
+    assert (w, h) == (3, 2) and [p[0] for p in px[0]] == [255, 0, 255] and [p[0] for p in px[1]] == [0, 255, 0]
+    # palette image, depth 2, with tRNS
+    raw = b'\x00' + bytes([0b00011011])
+    png = (b'\x89PNG\r\n\x1a\n' + chunk(b'IHDR', _s.pack('>2I5B', 4, 1, 2, 3, 0, 0, 0)) + chunk(b'PLTE', bytes([1, 2, 3, 4, 5, 6, 7, 8, 9, 10, 11, 12]))
+           + chunk(b'tRNS', bytes([0, 128])) + chunk(b'IDAT', zlib.compress(raw)) + chunk(b'IEND', b''))
+    w, h, px, info = read_png(png)
+    assert px[0] == [(1, 2, 3, 0), (4, 5, 6, 128), (7, 8, 9, 255), (10, 11, 12, 255)]
+    for bad in (png[:-5] + b'\x00' + png[-4:], png.replace(b'PLTE', b'PLTX')):
+        try:
+            read_png(bad)
+            raise AssertionError('corrupt PNG accepted')
+        except FormatError:
+            pass
+    assert read_pbm(b'P4\n# c\n10 2\n' + bytes([0xff, 0xc0, 0x00, 0x00]))[2] == [[1] * 10, [0] * 10]
+    assert read_pbm(b'P1\n3 2\n101\n010\n')[2] == [[1, 0, 1], [0, 1, 0]]
+    try:
+        read_pbm(b'P4\n10 2\n' + bytes(3))
+        raise AssertionError('short PBM accepted')
+    except FormatError:
+        pass
+    assert read_ppm(b'P6 # c\n2 1 255\n' + bytes([1, 2, 3, 4, 5, 6]))[3] == [[(1, 2, 3), (4, 5, 6)]]
+    pam = b'P7\nWIDTH 2\nHEIGHT 1\nDEPTH 4\nMAXVAL 255\nTUPLTYPE RGB_ALPHA\nENDHDR\n' + bytes([1, 2, 3, 4, 5, 6, 7, 8])
+    w, h, depth, maxval, tt, rows = read_pam(pam)
+    assert rows == [[(1, 2, 3, 4), (5, 6, 7, 8)]] and pam_rgba(tt, maxval, rows[0][0]) == (1, 2, 3, 4)
+    assert pam_rgba('BLACKANDWHITE', 1, (1,)) == (255, 255, 255, 255)
+    xbm = '#define i_width 9\n#define i_height 1\nstatic unsigned char i_bits[] = {\n    0x01, 0x01\n};\n'
+    assert read_xbm(xbm)[3] == [[1, 0, 0, 0, 0, 0, 0, 0, 1]]
+    xpm = '/* XPM */\nstatic char *img[] = {\n"2 2 2 1",\n"  c #ffffff",\n"X c #000000",\n"X ",\n" X"\n};\n'
+    assert read_xpm(xpm)[3] == [['#000000', '#ffffff'], ['#ffffff', '#000000']]
+    assert read_txt('10\n01\n') == [[1, 0], [0, 1]]
+    assert read_ansi('\x1b[7m  \x1b[0m\x1b[49m    \x1b[0m\n') == [[0, 1, 1]]
+    assert read_compact(' ▀\n') == [[1, 0], [1, 1]]
